@@ -1,27 +1,475 @@
+// C16: the BUILD language agrees with Python on its documented subset.
+// Implementation side of the correspondence (real asp interpreter through the verif hook; python3 for the
+// reference model) and the property oracle: real asp against python3 on the same program text.
 package main
 
 import (
 	"fmt"
 	"os"
+	"sort"
+	"strings"
 
-	"github.com/thought-machine/please/src/parse/asp"
+	"verifharness/aspgen"
+	"verifharness/lib"
+
 	gologging "gopkg.in/op/go-logging.v1"
 )
 
+type item struct {
+	name    string
+	stream  string
+	tpl     *aspgen.Template
+	defs    aspgen.Prog
+	build   aspgen.Prog
+	raw     string
+	loose   bool // large integers etc.: the model may refuse (EUnsupported) without that being a disagreement
+	noPy    bool // no CPy case (octal literal: the AST holds asp's reading)
+	src     string
+	pysrc   string
+	asp     aspgen.Result
+	py      aspgen.PyResult
+	pyIdx   int
+	verdict string
+}
+
+func hasBigInt(p aspgen.Prog) bool {
+	big := false
+	var ve func(e *aspgen.Expr)
+	var vv func(v *aspgen.Val)
+	vv = func(v *aspgen.Val) {
+		if v == nil {
+			return
+		}
+		if v.K == "int" && (v.Int > 1<<31 || v.Int < -(1<<31)) {
+			big = true
+		}
+		for _, e := range v.Items {
+			ve(e)
+		}
+		for _, e := range v.Keys {
+			ve(e)
+		}
+		ve(v.Iter)
+		ve(v.Cond)
+		for _, a := range v.Args {
+			ve(a.E)
+		}
+		for _, a := range v.MArgs {
+			ve(a.E)
+		}
+		for _, a := range v.PMArgs {
+			ve(a.E)
+		}
+		for _, s := range v.Slices {
+			ve(s.Lo)
+			ve(s.Hi)
+		}
+	}
+	ve = func(e *aspgen.Expr) {
+		if e == nil {
+			return
+		}
+		vv(e.Val)
+		for _, o := range e.Ops {
+			vv(o.Val)
+		}
+		ve(e.If)
+		ve(e.Els)
+	}
+	var vs func(ss []*aspgen.Stmt)
+	vs = func(ss []*aspgen.Stmt) {
+		for _, s := range ss {
+			ve(s.Idx)
+			ve(s.E)
+			for _, a := range s.Args {
+				ve(a.E)
+			}
+			vs(s.Body)
+			vs(s.Elif)
+			vs(s.Else)
+		}
+	}
+	vs(p)
+	return big
+}
+
+func chainStats(p aspgen.Prog) (maxOps int, classes []string) {
+	seen := map[string]bool{}
+	var ve func(e *aspgen.Expr)
+	var vv func(v *aspgen.Val)
+	vv = func(v *aspgen.Val) {
+		if v == nil {
+			return
+		}
+		for _, e := range v.Items {
+			ve(e)
+		}
+		ve(v.Iter)
+		ve(v.Cond)
+		for _, a := range v.Args {
+			ve(a.E)
+		}
+	}
+	ve = func(e *aspgen.Expr) {
+		if e == nil {
+			return
+		}
+		if len(e.Ops) > maxOps {
+			maxOps = len(e.Ops)
+		}
+		if c := aspgen.ChainClass(e.Ops); c != "" && !seen[c] {
+			seen[c] = true
+			classes = append(classes, c)
+		}
+		vv(e.Val)
+		for _, o := range e.Ops {
+			vv(o.Val)
+		}
+		ve(e.If)
+		ve(e.Els)
+	}
+	var vs func(ss []*aspgen.Stmt)
+	vs = func(ss []*aspgen.Stmt) {
+		for _, s := range ss {
+			ve(s.E)
+			vs(s.Body)
+			vs(s.Else)
+		}
+	}
+	vs(p)
+	sort.Strings(classes)
+	return
+}
+
+// plain comparison of asp's final globals with python's: every name python reports must be there with the same value
+func diffVars(asp map[string]any, py map[string]any, skipped []string) []string {
+	ap := aspgen.PlainGlobals(asp)
+	skip := map[string]bool{}
+	for _, s := range skipped {
+		skip[s] = true
+	}
+	names := map[string]bool{}
+	for k := range ap {
+		names[k] = true
+	}
+	for k := range py {
+		names[k] = true
+	}
+	out := []string{}
+	for k := range names {
+		if skip[k] {
+			continue
+		}
+		a, inA := ap[k]
+		p, inP := py[k]
+		if inA && inP && aspgen.Canon(a) == aspgen.Canon(p) {
+			continue
+		}
+		out = append(out, k)
+	}
+	sort.Strings(out)
+	return out
+}
+
+func coqOutcome(r aspgen.Result) string {
+	if r.Err != "" {
+		return "OErr"
+	}
+	return "(OGlobals " + aspgen.CoqGlobals(r.After) + " " + aspgen.CoqGlobals(r.Final) + ")"
+}
+
+// python's plain globals as a Coq obs list
+func coqPyObs(v any) string {
+	switch t := v.(type) {
+	case nil:
+		return "ONone"
+	case bool:
+		return "(OBool " + lib.Bool(t) + ")"
+	case string:
+		return "(OStr " + lib.Str(t) + ")"
+	case []any:
+		items := []string{}
+		for _, x := range t {
+			items = append(items, coqPyObs(x))
+		}
+		return "(OList false 0%nat " + lib.List(items) + ")"
+	case map[string]any:
+		items := []string{}
+		for _, k := range lib.SortedKeys(t) {
+			items = append(items, "("+lib.Str(k)+", "+coqPyObs(t[k])+")")
+		}
+		return "(ODict false " + lib.List(items) + ")"
+	default:
+		return fmt.Sprintf("(OInt (%v)%%Z)", t)
+	}
+}
+
 func main() {
 	gologging.SetLevel(gologging.CRITICAL, "plz")
-	src, _ := os.ReadFile(os.Args[1])
-	var files []asp.VerifC16File
-	if len(os.Args) > 2 {
-		d, _ := os.ReadFile(os.Args[2])
-		files = append(files, asp.VerifC16File{Name: "//defs:d", Src: string(d), Defs: true})
+	lib.Main("C16", func(c *lib.Ctx) {
+		c.Model("From PlzV Require Import Model.C16_Syntax Model.C16_Eval Model.C16.", "C16.case", "C16.check")
+		c.Rule("programs of the BUILD language generated as ASTs (typed trees flattened with only the parentheses CPython needs, so chains of 3-6 operators of mixed " +
+			"precedence; negative/large ints, non-ASCII strings, lists, dicts, comprehensions with filters, functions with defaults, for/if, builtins len sorted reversed " +
+			"range enumerate zip any all min max str join split keys), printed once, the text parsed and interpreted by the real asp (printer validated: the real parser's " +
+			"AST must equal the generated one) and executed by python3; plus one witness per known difference and the pre-fix corpus, and an ill-typed stream. " +
+			"distinct = distinct program texts; non-trivial = a chain of >= 2 operators of different precedence, or a list/dict/function/loop")
+
+		var items []*item
+		add := func(it *item) { items = append(items, it) }
+		for _, t := range aspgen.Templates() {
+			t := t
+			add(&item{name: "tpl:" + t.Name, stream: "template", tpl: &t, defs: t.Defs, build: t.Build, raw: t.Raw})
+		}
+		nChain, nProg, nMal, nDefs := c.Scale(500, 12000), c.Scale(350, 8000), c.Scale(60, 1500), c.Scale(60, 1500)
+		for i := 0; i < nChain; i++ {
+			g := aspgen.NewGen(c.Rng.Fork())
+			g.AllowDiv = i%25 == 0
+			add(&item{name: fmt.Sprintf("chain:%d", i), stream: "chain", build: g.ChainProgram()})
+		}
+		for i := 0; i < nProg; i++ {
+			g := aspgen.NewGen(c.Rng.Fork())
+			add(&item{name: fmt.Sprintf("prog:%d", i), stream: "program", build: g.Program()})
+		}
+		for i := 0; i < nMal; i++ {
+			g := aspgen.NewGen(c.Rng.Fork())
+			add(&item{name: fmt.Sprintf("bad:%d", i), stream: "malformed", build: g.Malformed()})
+		}
+		for i := 0; i < nDefs; i++ {
+			// the same kind of program, but interpreted as a subincluded file (optimise + optimiseExpressions, frozen
+			// globals) and imported by an otherwise empty BUILD file: the values must still be CPython's
+			g := aspgen.NewGen(c.Rng.Fork())
+			add(&item{name: fmt.Sprintf("defs:%d", i), stream: "defs", defs: g.Program(), build: aspgen.Prog{aspgen.CallStmt("subinclude", aspgen.StrE("//defs:d"))}})
+		}
+
+		// ---- run the real interpreter, validate the printer
+		var jobs []aspgen.PyJob
+		for _, it := range items {
+			var files []aspgen.File
+			if it.raw != "" {
+				it.src = it.raw
+				files = []aspgen.File{{Name: "p", Src: it.raw}}
+				it.pysrc = it.raw
+			} else {
+				it.loose = hasBigInt(it.build) || hasBigInt(it.defs)
+				if it.defs != nil {
+					files = append(files, aspgen.NewFile("//defs:d", it.defs, true))
+				}
+				files = append(files, aspgen.NewFile("p", it.build, false))
+				it.src = files[len(files)-1].Src
+				for _, f := range files {
+					dump, err := aspgen.ParseDump(f.Src)
+					if err != nil {
+						if it.stream == "template" || it.stream == "malformed" {
+							continue
+						}
+						c.Fail("generated-text-rejected-by-parser", err.Error(), map[string]any{"src": f.Src})
+						continue
+					}
+					if dump != f.Prog.JSON() {
+						c.Fail("parser-ast-differs-from-generated", "the real parser builds a different AST for the printed text", map[string]any{"src": f.Src, "parsed": dump, "generated": f.Prog.JSON()})
+					}
+				}
+				// python sees the defs text followed by the BUILD text without the subinclude call
+				if it.defs != nil {
+					rest := aspgen.Prog{}
+					for _, s := range it.build {
+						if !(s.K == "call" && s.Name == "subinclude") {
+							rest = append(rest, s)
+						}
+					}
+					it.pysrc = files[0].Src + aspgen.Source(rest)
+				} else {
+					it.pysrc = it.src
+				}
+			}
+			it.asp = aspgen.Eval(files, false)[0]
+			it.pyIdx = len(jobs)
+			jobs = append(jobs, aspgen.PyJob{Src: it.pysrc})
+		}
+		pyres := aspgen.RunPython(jobs, c.Out)
+		os.Remove(c.Out + "/c16_driver.py")
+
+		// ---- oracle: asp against python3
+		type pending struct {
+			it   *item
+			jobs []int // EMU jobs: [all, all-minus-class0, all-minus-class1, ...]
+		}
+		var emuJobs []aspgen.PyJob
+		var pend []pending
+		for _, it := range items {
+			it.py = pyres[it.pyIdx]
+			c.Oracle()
+			c.Hist("stream", it.stream)
+			switch {
+			case it.asp.Err != "":
+				it.verdict = "asp-error"
+				if it.py.Err != "" {
+					c.Hist("outcome", "both-raise")
+				} else {
+					c.Hist("outcome", "asp-raises-only")
+				}
+				continue
+			case it.py.Err == "" && len(diffVars(it.asp.Final, it.py.OK, it.py.Skipped)) == 0:
+				it.verdict = "agree"
+				c.Hist("outcome", "agree")
+				if it.tpl != nil && it.tpl.Class != "" {
+					c.Note("witness %s of class %s was NOT reproduced: asp now agrees with CPython on it", it.tpl.Name, it.tpl.Class)
+				}
+				continue
+			}
+			c.Hist("outcome", "differ")
+			it.verdict = "differ"
+			if it.tpl != nil && it.tpl.Asp != nil {
+				// exact known outcome: asp differs from CPython exactly on the listed variables, with the listed values
+				bad := diffVars(it.asp.Final, it.py.OK, it.py.Skipped)
+				ap := aspgen.PlainGlobals(it.asp.Final)
+				ok := it.py.Err == "" || it.tpl.PyErr
+				if it.py.Err == "" {
+					ok = ok && len(bad) == len(it.tpl.Asp)
+				}
+				for k, want := range it.tpl.Asp {
+					if got, present := ap[k]; !present || aspgen.Canon(got) != want {
+						ok = false
+					}
+				}
+				in := map[string]any{"src": it.src, "asp": it.asp.Final, "python": it.py}
+				if ok {
+					c.Fail(it.tpl.Class, fmt.Sprintf("%s: asp computes %v where CPython gives %v", it.tpl.Name, it.tpl.Asp, describePy(it.py, it.tpl.Asp)), in)
+				} else {
+					c.Fail("unexplained-asp-python-difference", fmt.Sprintf("%s: asp and CPython differ on %v in a way the known class %s does not predict", it.tpl.Name, bad, it.tpl.Class), in)
+				}
+				continue
+			}
+			if it.build == nil {
+				c.Fail("unexplained-asp-python-difference", "raw program: asp and CPython differ", map[string]any{"src": it.src, "asp": it.asp.Final, "python": it.py})
+				continue
+			}
+			p := pending{it: it}
+			render := func(off string) int {
+				T := map[string]bool{}
+				for _, cl := range aspgen.ExprClasses {
+					T[cl] = cl != off
+				}
+				m := aspgen.Emu{T: T}
+				text := ""
+				if it.defs != nil {
+					text = m.Source(it.defs)
+				}
+				rest := aspgen.Prog{}
+				for _, s := range it.build {
+					if !(s.K == "call" && s.Name == "subinclude") {
+						rest = append(rest, s)
+					}
+				}
+				text += m.Source(rest)
+				emuJobs = append(emuJobs, aspgen.PyJob{Src: text, Toggles: m.Toggles()})
+				return len(emuJobs) - 1
+			}
+			p.jobs = append(p.jobs, render(""))
+			for _, cl := range aspgen.ExprClasses {
+				p.jobs = append(p.jobs, render(cl))
+			}
+			pend = append(pend, p)
+		}
+		emures := aspgen.RunPython(emuJobs, c.Out)
+		os.Remove(c.Out + "/c16_driver.py")
+		for _, p := range pend {
+			it := p.it
+			in := map[string]any{"src": it.src, "asp": it.asp.Final, "python": it.py}
+			if it.defs != nil {
+				in["defs"] = aspgen.Source(it.defs)
+			}
+			same := func(r aspgen.PyResult) bool {
+				return r.Err == "" && len(diffVars(it.asp.Final, r.OK, r.Skipped)) == 0
+			}
+			if !same(emures[p.jobs[0]]) {
+				c.Fail("unexplained-asp-python-difference", "asp and CPython differ on "+strings.Join(diffVars(it.asp.Final, it.py.OK, it.py.Skipped), ",")+
+					" and the emulation of all known differences does not reproduce asp's values", in)
+				continue
+			}
+			needed := []string{}
+			for k, cl := range aspgen.ExprClasses {
+				if !same(emures[p.jobs[k+1]]) {
+					needed = append(needed, cl)
+				}
+			}
+			if len(needed) == 0 {
+				// several classes each sufficient on their own cannot happen: switching one off changes only its own construct
+				c.Fail("unexplained-asp-python-difference", "asp and CPython differ but no single known difference is necessary to explain it", in)
+				continue
+			}
+			if it.tpl != nil && it.tpl.Class != "" && !(len(needed) == 1 && needed[0] == it.tpl.Class) {
+				c.Fail("unexplained-asp-python-difference", fmt.Sprintf("witness %s of class %s is now explained by %v", it.tpl.Name, it.tpl.Class, needed), in)
+				continue
+			}
+			for _, cl := range needed {
+				c.Fail(cl, "asp and CPython differ on "+strings.Join(diffVars(it.asp.Final, it.py.OK, it.py.Skipped), ",")+" ("+firstLine(it.src)+")", in)
+			}
+			c.Hist("classes_per_failure", fmt.Sprint(len(needed)))
+		}
+
+		// ---- correspondence cases
+		for _, it := range items {
+			if it.build == nil {
+				c.Eval(map[string]any{"src": it.src}, it.src, false)
+				continue
+			}
+			maxOps, classes := chainStats(append(append(aspgen.Prog{}, it.defs...), it.build...))
+			nontrivial := maxOps >= 2 || it.stream == "program" || it.stream == "defs"
+			c.HistN("max_chain_ops", maxOps)
+			for _, cl := range classes {
+				c.Hist("chain_class", cl)
+			}
+			if len(classes) == 0 {
+				c.Hist("chain_class", "safe")
+			}
+			defs := "[]"
+			if it.defs != nil {
+				defs = lib.List([]string{lib.Pair(lib.Str("//defs:d"), aspgen.CoqProg(it.defs))})
+			}
+			js := map[string]any{"name": it.name, "src": it.src, "asp": map[string]any{"err": it.asp.Err, "after": it.asp.After, "final": it.asp.Final}}
+			if it.defs != nil {
+				js["defs"] = aspgen.Source(it.defs)
+			}
+			c.Case(lib.App("CAsp", lib.Bool(it.loose), defs, lib.List([]string{aspgen.CoqProg(it.build)}), lib.List([]string{coqOutcome(it.asp)})),
+				js, it.pysrc, nontrivial)
+			// the reference model against python3 (same AST, CPython's semantics)
+			if it.defs == nil && it.stream != "malformed" && !it.py.Float && len(it.py.Skipped) == 0 && !hasOctal(it.build) {
+				obs := "OErr"
+				if it.py.Err == "" {
+					kv := []string{}
+					for _, k := range lib.SortedKeys(it.py.OK) {
+						kv = append(kv, lib.Pair(lib.Str(k), coqPyObs(it.py.OK[k])))
+					}
+					obs = "(OGlobals [] " + lib.List(kv) + ")"
+				}
+				c.Case(lib.App("CPy", lib.Bool(it.loose), aspgen.CoqProg(it.build), obs),
+					map[string]any{"name": it.name + ":py", "src": it.src, "python": it.py}, "py:"+it.pysrc, false)
+			}
+		}
+	})
+}
+
+func hasOctal(p aspgen.Prog) bool { return strings.Contains(aspgen.Source(p), "0o") }
+
+func firstLine(s string) string {
+	if i := strings.IndexByte(s, '\n'); i >= 0 && i < 120 {
+		return s[:i]
 	}
-	files = append(files, asp.VerifC16File{Name: "p", Src: string(src)})
-	out, err := asp.VerifC16Eval(files, false)
-	fmt.Println(err)
-	for _, o := range out {
-		fmt.Println(o.Name, o.Err, string(o.After))
+	if len(s) > 120 {
+		return s[:120]
 	}
-	ast, err := asp.VerifC16Parse(string(src))
-	fmt.Println(ast, err)
+	return s
+}
+
+func describePy(py aspgen.PyResult, vars map[string]string) string {
+	if py.Err != "" {
+		return py.Err
+	}
+	parts := []string{}
+	for k := range vars {
+		parts = append(parts, k+"="+aspgen.Canon(py.OK[k]))
+	}
+	sort.Strings(parts)
+	return strings.Join(parts, " ")
 }
